@@ -78,6 +78,12 @@ fn iter_case<C: CI, const K: usize, S: KS>(ctx: &mut Ctx) {
                         check!(ctx, view == want && codes_of::<C>(&back) == want && k.len() == K, format!("kmers|{name}|deref-or-into-seq"), "{what}: k-mer {i} derefs to {:?}, converts to {:?}", view, show::<C>(&back));
                     }
                 }
+                if n == K + 7 && (pad % 8 == 0 || ctx.tier == Tier::Thorough) && !ctx.lite {
+                    let wantk: Vec<u128> = codes.windows(K).map(|w| model::pack_u128(a.bits, w)).collect();
+                    for (c, d) in adaptor_laws(&|| s.kmers::<K>(), &|k: Kmer<C, K>| k.bs as u128, &wantk) {
+                        check!(ctx, false, format!("kmers.{c}|{name}"), "{what}: kmers::<{K}>(): {d}");
+                    }
+                }
                 let nc = if n == 0 { "0" } else if n < K { "n<K" } else if n == K { "n=K" } else if n == K + 1 { "n=K+1" } else { "n>K+1" };
                 ctx.cell_k(fp(&[name.as_bytes(), &[K as u8, head as u8], nc.as_bytes()]), || format!("{name}/iter/K{K}/{nc}/head{head}"));
                 ctx.nontrivial(fp(&[b"it", name.as_bytes(), &[K as u8, pad as u8], &codes]));
@@ -187,6 +193,48 @@ fn cons_owned<C: CI, const K: usize, S: KS>(ctx: &mut Ctx) {
     });
 }
 
+/// k-mers whose window ends exactly at the end of the backing allocation (exact-capacity owned
+/// sequences whose bit length is a multiple of 64, and static literals): a read of "the next word"
+/// is out of bounds here even when the value comes out right, so this group is mainly for Miri / ASan
+fn alloc_end<C: CI, const K: usize, S: KS>(ctx: &mut Ctx) {
+    let a = C::alpha();
+    let name = C::NAME;
+    let pw = per_word(a.bits);
+    if 64 % a.bits as usize != 0 {
+        return; // bit lengths of whole words only exist for widths dividing 64
+    }
+    ctx.group(&format!("{name}/kmers-at-allocation-end/K{K}"), |ctx| {
+        for words in [1usize, 2] {
+            let n = words * pw;
+            if K > n {
+                continue;
+            }
+            let codes = rand_codes(&mut ctx.rng, a, n);
+            // three ways to an allocation without spare words
+            let parsed = mk::<C>(&codes);
+            let exact: Seq<C> = parsed[..].to_owned();
+            let mut cap = Seq::<C>::with_capacity(n);
+            for c in &codes {
+                cap.push(C::try_from_bits(*c).unwrap());
+            }
+            for (how, s) in [("to_owned", &exact), ("with_capacity", &cap), ("parsed", &parsed)] {
+                ctx.eval();
+                let spare = s.verif_capacity_bits() - n * a.bits as usize;
+                let r = observe(|| {
+                    let last = s.kmers::<K>().last().map(|k| k.bs as u128);
+                    let tf = Kmer::<C, K, S>::try_from(&s[n - K..]).map(|k| k.bs.to_u128()).ok();
+                    let eq = Kmer::<C, K, S>::try_from(&s[n - K..]).map(|k| k == s[n - K..]).ok();
+                    (last, tf, eq)
+                });
+                let want = model::pack_u128(a.bits, &codes[n - K..]);
+                check!(ctx, r == Ok((Some(want), Some(want), Some(true))), format!("kmers|{name}|allocation-end"), "{name} K={K} n={n} [{how}, {spare} spare bits]: last k-mer {:?} want {want:#x}", r);
+                cell!(ctx, "{name}/alloc-end/{how}/spare={}", if spare == 0 { "0" } else { ">0" });
+                ctx.nontrivial(fp(&[b"ae", name.as_bytes(), &[K as u8, words as u8], how.as_bytes()]));
+            }
+        }
+    });
+}
+
 fn literals(ctx: &mut Ctx) {
     ctx.group("kmer-literals", |ctx| {
         macro_rules! kl {
@@ -209,11 +257,26 @@ fn literals(ctx: &mut Ctx) {
         kl!("TTGACCAGTAGCATCGATCGATTAGACGTAC");
         kl!("TTGACCAGTAGCATCGATCGATTAGACGTACG");
         cell!(ctx, "dna/kmer-literals");
+        // static arrays end with their allocation: every k-mer length over a 32- and a 64-symbol literal
+        let l32: &'static SeqSlice<Dna> = dna!("TTGACCAGTAGCATCGATCGATTAGACGTACG");
+        let l64: &'static SeqSlice<Dna> = dna!("TTGACCAGTAGCATCGATCGATTAGACGTACGACGTACGTTTGACCAGTAGCATCGATCGATTA");
+        macro_rules! lastk {
+            ($l:expr, $k:literal) => {{
+                ctx.eval();
+                let t = $l.to_string();
+                let r = observe(|| $l.kmers::<$k>().last().map(|k| k.to_string()));
+                check!(ctx, r.as_ref().ok().and_then(|x| x.as_deref()) == Some(&t[t.len() - $k..]), "kmers|dna|allocation-end-static".to_string(), "last {}-mer of a {}-symbol literal: {:?}", $k, t.len(), r);
+            }};
+        }
+        lastk!(l32, 1); lastk!(l32, 3); lastk!(l32, 8); lastk!(l32, 31); lastk!(l32, 32);
+        lastk!(l64, 1); lastk!(l64, 5); lastk!(l64, 16); lastk!(l64, 31); lastk!(l64, 32);
     });
 }
 
 fn main() {
     run_main("C08", |ctx| {
+        // first, uncapped even under Miri: the allocation-end reads
+        for_each_k_small!(alloc_end, usize, ctx);
         if ctx.lite {
             for_each_k_small!(iter_case, usize, ctx);
             for_each_k_small!(cons_case, usize, ctx);
@@ -227,6 +290,6 @@ fn main() {
             for_each_k64!(cons_owned, usize, ctx);
         }
         literals(ctx);
-        ctx.note("rule", json!("every (codec,K) that fits in 64 bits: kmers::<K>() over slices of length 0, K-1, K, K+1, K+7, 2K+3 and 3 words+1 at bit offsets (quick: every 5th rotating + 0; thorough: all), drained with a step bound, each k-mer compared with the model window by display AND packed integer, with windows(K) item i and with &slice[i..i+K]; Deref / Seq::from every 7th. Every (codec,K,storage in usize/u64/u128): try_from(&slice) for lengths K, K-1, K+1, 0, 2K (Ok iff K), unsafe_from_seqslice, from_str for valid text, K-1, K+1, empty, one bad byte, multi-byte characters; TryFrom<Seq> (usize). Distinct = (codec,K,pad,content)."));
+        ctx.note("rule", json!("every (codec,K) that fits in 64 bits: kmers::<K>() over slices of length 0, K-1, K, K+1, K+7, 2K+3 and 3 words+1 at bit offsets (quick: every 5th rotating + 0; thorough: all), drained with a step bound, each k-mer compared with the model window by display AND packed integer, with windows(K) item i and with &slice[i..i+K]; Deref / Seq::from every 7th. nth/skip/step_by/count/last/size_hint on the k-mer iterator; k-mers ending exactly at the end of exact-capacity allocations and static literals (for Miri/ASan). Every (codec,K,storage in usize/u64/u128): try_from(&slice) for lengths K, K-1, K+1, 0, 2K (Ok iff K), unsafe_from_seqslice, from_str for valid text, K-1, K+1, empty, one bad byte, multi-byte characters; TryFrom<Seq> (usize). Distinct = (codec,K,pad,content)."));
     });
 }
